@@ -199,6 +199,73 @@ def fanMonotone : List Nat → Bool
   | a :: b :: rest => decide (a ≤ b) && fanMonotone (b :: rest)
   | _ => true
 
+/-- the optional BASE chunk: size a multiple of the hash length and as many hashes as the header says -/
+def baseCheck (chunks : List Chunk) (bc : Nat) : Except OpenErr (Option Chunk) :=
+  match findChunk chunks BASE with
+  | none => .ok none
+  | some c =>
+    if (c.stop - c.start) % 20 ≠ 0 then .error .size
+    else if (c.stop - c.start) / 20 ≠ bc then .error .baseMismatch
+    else .ok (some c)
+
+/-- a mandatory chunk whose size must be a multiple of `unit` (CDAT: 36, OIDL: 20) -/
+def needChunk (chunks : List Chunk) (kind : Bytes) (unit : Nat) : Except OpenErr Chunk :=
+  match findChunk chunks kind with
+  | none => .error .missing
+  | some c => if (c.stop - c.start) % unit ≠ 0 then .error .size else .ok c
+
+/-- the mandatory OIDF chunk of exactly 256 * 4 bytes -/
+def needFan (chunks : List Chunk) : Except OpenErr Chunk :=
+  match findChunk chunks OIDF with
+  | none => .error .missing
+  | some c => if c.stop - c.start ≠ 1024 then .error .size else .ok c
+
+/-- fan-out table, its monotonicity, the two commit counts, the chunk contents -/
+def File.finish (data : Bytes) (bc : Nat) (chunks : List Chunk) (base : Option Chunk) (cd fo ol : Chunk) :
+    Option (Except OpenErr File) :=
+  match readFan 256 (data.drop fo.start) with
+  | none => none
+  | some fan =>
+    if !fanMonotone fan then some (.error .corrupt)
+    else
+      match fan[255]? with
+      | none => none
+      | some n =>
+        if (ol.stop - ol.start) / 20 ≠ n then some (.error .count)
+        else if (cd.stop - cd.start) / 36 ≠ n then some (.error .count)
+        else
+          match chunkBytes data cd, chunkBytes data ol with
+          | some cdb, some olb =>
+            some (.ok { baseGraphCount := bc, baseGraphs := base.bind (chunkBytes data), cdat := cdb,
+                        edges := (findChunk chunks EDGE).bind (chunkBytes data), fan := fan, oidl := olb })
+          | _, _ => none
+
+/-- trailer length and presence of the BASE chunk when the header announces base graphs -/
+def File.assemble (data : Bytes) (bc : Nat) (chunks : List Chunk) (base : Option Chunk) (cd fo ol : Chunk) :
+    Option (Except OpenErr File) :=
+  match chunks.getLast? with
+  | none => none
+  | some lastc =>
+    if lastc.stop > data.length then none
+    else if data.length - lastc.stop ≠ 20 then some (.error .trailer)
+    else if bc > 0 ∧ base.isNone then some (.error .missing)
+    else File.finish data bc chunks base cd fo ol
+
+/-- the chunk validations of `File::new`, in its order: BASE, CDAT, OIDF, OIDL, then the rest -/
+def File.fromChunks (data : Bytes) (bc : Nat) (chunks : List Chunk) : Option (Except OpenErr File) :=
+  match baseCheck chunks bc with
+  | .error e => some (.error e)
+  | .ok base =>
+    match needChunk chunks CDAT 36 with
+    | .error e => some (.error e)
+    | .ok cd =>
+      match needFan chunks with
+      | .error e => some (.error e)
+      | .ok fo =>
+        match needChunk chunks OIDL 20 with
+        | .error e => some (.error e)
+        | .ok ol => File.assemble data bc chunks base cd fo ol
+
 /-- `File::new`; outer `none` = panic -/
 def File.new (data : Bytes) : Option (Except OpenErr File) :=
   if data.length < 8 + 4 * 12 + 1024 + 20 then some (.error .corrupt)
@@ -212,58 +279,7 @@ def File.new (data : Bytes) : Option (Except OpenErr File) :=
         match tocParse data 8 cc.toNat with
         | none => none
         | some (.error e) => some (.error (.chunk e))
-        | some (.ok chunks) =>
-          -- BASE: optional; its errors are reported first
-          let baseR : Except OpenErr (Option Chunk) :=
-            match findChunk chunks BASE with
-            | none => .ok none
-            | some c =>
-              if (c.stop - c.start) % 20 ≠ 0 then .error .size
-              else if (c.stop - c.start) / 20 ≠ bc.toNat then .error .baseMismatch
-              else .ok (some c)
-          match baseR with
-          | .error e => some (.error e)
-          | .ok base =>
-            match findChunk chunks CDAT with
-            | none => some (.error .missing)
-            | some cd =>
-              if (cd.stop - cd.start) % 36 ≠ 0 then some (.error .size)
-              else
-                match findChunk chunks OIDF with
-                | none => some (.error .missing)
-                | some fo =>
-                  if fo.stop - fo.start ≠ 1024 then some (.error .size)
-                  else
-                    match findChunk chunks OIDL with
-                    | none => some (.error .missing)
-                    | some ol =>
-                      if (ol.stop - ol.start) % 20 ≠ 0 then some (.error .size)
-                      else
-                        match chunks.getLast? with
-                        | none => none
-                        | some lastc =>
-                          if lastc.stop > data.length then none
-                          else if data.length - lastc.stop ≠ 20 then some (.error .trailer)
-                          else if bc.toNat > 0 ∧ base.isNone then some (.error .missing)
-                          else
-                            match readFan 256 (data.drop fo.start) with
-                            | none => none
-                            | some fan =>
-                              if !fanMonotone fan then some (.error .corrupt)
-                              else
-                              match fan[255]? with
-                              | none => none
-                              | some n =>
-                                if (ol.stop - ol.start) / 20 ≠ n then some (.error .count)
-                                else if (cd.stop - cd.start) / 36 ≠ n then some (.error .count)
-                                else
-                                  match chunkBytes data cd, chunkBytes data ol with
-                                  | some cdb, some olb =>
-                                    let edges := (findChunk chunks EDGE).bind (chunkBytes data)
-                                    let baseb := base.bind (chunkBytes data)
-                                    some (.ok { baseGraphCount := bc.toNat, baseGraphs := baseb, cdat := cdb,
-                                                edges := edges, fan := fan, oidl := olb })
-                                  | _, _ => none
+        | some (.ok chunks) => File.fromChunks data bc.toNat chunks
     | _, _, _, _ => none
 
 /-! ### the graph (chain of files, base first) -/
